@@ -12,6 +12,7 @@ import PygProofs.Lemmas.DictCallOrder
 import PygProofs.Lemmas.DAHeapLemmas
 import PygModel.DictAdd
 import PygProofs.Lemmas.TreeMerge
+import PygModel.DADotted
 
 namespace Pyg.Props.C16
 open Pyg Pyg.USet Pyg.DA Pyg.DictCall
@@ -382,10 +383,16 @@ theorem and_keys_ulist (d : D V) (ks : List String) (hd : (keys d).Nodup) :
     keys (andKeys d ks) = USet.andList (keys d) ks := by
   rw [(and_keys d ks hd).1, ulist_inter _ _ hd]
 
-/-- `d + other` for a receiver that is not a `Dict` (dictattr proper and its other subclasses) is `{**d, **other}` for
-ALL value types — also dict values are simply replaced -/
-theorem add_class (d : D V) [TreeAdd V] (o : List (String × V)) (hc : d.cls ≠ 1) : addC d o = .ok (add d o) := by
+/-- `d + other` for a receiver that is neither `Dict` nor a subclass of `Dict` (`isDictLike`: they inherit `Dict.__add__` =
+`tree_update`; review s2 F1: `class D2(Dict)` merges, so the earlier hypothesis `d.cls ≠ 1` claimed too much) — dictattr
+proper and its other subclasses — is `{**d, **other}` for ALL value types: also dict values are simply replaced -/
+theorem add_class (d : D V) [TreeAdd V] (o : List (String × V)) (hc : isDictLike d.cls = false) : addC d o = .ok (add d o) := by
   simp [addC, hc, pure, Except.pure]
+
+/-- the class tags of the harness: plain dict (0), `dictattr` (2), a bare subclass of `dictattr` (3) -/
+theorem add_class_tags (d : D V) [TreeAdd V] (o : List (String × V)) (hc : d.cls = 0 ∨ d.cls = 2 ∨ d.cls = 3) :
+    addC d o = .ok (add d o) :=
+  add_class d o (by rcases hc with h | h | h <;> simp [isDictLike, h])
 
 end dictattr
 
@@ -441,7 +448,7 @@ instance : LawfulTreeAdd Val where
 is `{**d, **other}` like for every other class — whatever `d` holds (a dict value of `d` is then replaced as a whole). -/
 theorem dict_add_flat (d : D Val) (o : List (String × Val)) (ho : ∀ kv ∈ o, ∀ s, kv.2 ≠ .dict s)
     (hn : (o.map (·.1)).Nodup) : addC d o = .ok (add d o) := by
-  by_cases hc : d.cls = 1
+  by_cases hc : isDictLike d.cls = true
   · have hp : ((o.map fun kv => (([kv.1] : Path), kv.2)).map (·.1)).Nodup := by
       rw [List.map_map]
       have : ((fun x : Path × Val => x.1) ∘ fun kv : String × Val => ([kv.1], kv.2)) = fun kv => [kv.1] := rfl
@@ -455,7 +462,7 @@ theorem dict_add_flat (d : D Val) (o : List (String × Val)) (ho : ∀ kv ∈ o,
       simp
     simp only [addC, hc, if_true, TreeAdd.treeAdd, itemsToTree, items, itemsKVs_flat o ho, hp, not_true_eq_false,
       if_false, he, Bool.false_eq_true, foldl_setKVs_flat, pure, Except.pure, Except.map, add]
-  · exact add_class d o hc
+  · exact add_class d o (by simpa using hc)
 
 /-- ... and with dict values `Dict + other` is C15's recursive merge (`other` with distinct keys and no empty branch at
 any depth): `Tree.mergeKVs`, characterised key by key by `C15.merge_lookup` / `mergeAt_leaf` / `mergeAt_branch` — a dict
@@ -464,6 +471,16 @@ below); the property text of C15 governs this case. -/
 theorem dict_add_is_merge (d : D Val) (o : List (String × Val)) (hc : d.cls = 1)
     (hw : wf (.dict o) = true) (hn : noEmpty (.dict o) = true) :
     addC d o = .ok ⟨1, mergeKVs [] d.items o⟩ := by
+  have h1 : isDictLike d.cls = true := by simp [isDictLike, hc]
+  obtain ⟨c, its⟩ := d
+  simp only at hc; subst hc
+  simp only [addC, h1, if_true, TreeAdd.treeAdd, itemsToTree_items [] its o hw hn, Except.map]
+
+/-- the same for `Dict` AND every subclass of `Dict` (`class D2(Dict)` inherits `__add__`): the result keeps the receiver's
+class and is the recursive merge -/
+theorem dictlike_add_is_merge (d : D Val) (o : List (String × Val)) (hc : isDictLike d.cls = true)
+    (hw : wf (.dict o) = true) (hn : noEmpty (.dict o) = true) :
+    addC d o = .ok ⟨d.cls, mergeKVs [] d.items o⟩ := by
   simp only [addC, hc, if_true, TreeAdd.treeAdd, itemsToTree_items [] d.items o hw hn, Except.map]
 
 /-- key by key: `Dict + other` differs from `{**d, **other}` only under keys that hold a dict on BOTH sides (there the
@@ -857,9 +874,261 @@ example : addC ⟨1, [("a", .dict [("x", vi 1)]), ("b", vi 2)]⟩ [("a", Val.dic
     .ok ⟨1, [("a", .dict [("x", vi 1), ("y", vi 2)]), ("b", vi 2)]⟩ := rfl
 example : addC ⟨2, [("a", .dict [("x", vi 1)]), ("b", vi 2)]⟩ [("a", Val.dict [("y", vi 2)])] =
     .ok ⟨2, [("a", .dict [("y", vi 2)]), ("b", vi 2)]⟩ := rfl
+/-- `class D2(Dict): pass; D2(a = {'x': 1}, b = 2) + {'a': {'y': 2}}` merges too (tag 4), and stays a `D2` -/
+example : addC ⟨4, [("a", .dict [("x", vi 1)]), ("b", vi 2)]⟩ [("a", Val.dict [("y", vi 2)])] =
+    .ok ⟨4, [("a", .dict [("x", vi 1), ("y", vi 2)]), ("b", vi 2)]⟩ := rfl
+example : isDictLike 4 = true ∧ isDictLike 3 = false ∧ isDictLike 2 = false := by decide
 /-- K1: the key `keys` of a dictattr: `d['keys']` is 1, `d.keys` is the bound method -/
 example : DAHeap.step [⟨2, [("keys", vi 1)]⟩] (.getItem 0 "keys") = .ok ([⟨2, [("keys", vi 1)]⟩], .val (vi 1)) ∧
     DAHeap.step [⟨2, [("keys", vi 1)]⟩] (.getAttr 0 "keys") = .ok ([⟨2, [("keys", vi 1)]⟩], .method) :=
   ⟨rfl, da_attr_shadowed _ 0 "keys" _ rfl (by decide)⟩
+
+
+/-! ## Round h2 (review s2) -/
+
+section ulist_inplace
+variable {α : Type} [DecidableEq α]
+open Pyg.USet
+
+/-- `u[i] = x` for an `x` that is new to `u`: the plain list assignment (the new element lands at index `i`, nothing else moves) -/
+theorem ulist_setI_fresh (u : List α) (i : Nat) (x : α) (hu : u.Nodup) (hi : i < u.length) (hx : x ∉ u) :
+    inplace u (.setI 0 i x) = some (u.set i x) := by
+  simp only [inplace, hi, if_true, mk_of_nodup _ (nodup_set_fresh u i x hu hx)]
+
+theorem ulist_setI_same (u : List α) (i : Nat) (hu : u.Nodup) (hi : i < u.length) :
+    inplace u (.setI 0 i u[i]) = some u := by
+  simp only [inplace, hi, if_true, List.set_getElem_self, mk_of_nodup u hu]
+
+theorem ulist_setI_index (u : List α) (i : Nat) (x : α) (hi : ¬ i < u.length) : inplace u (.setI 0 i x) = none := by
+  simp [inplace, hi]
+
+theorem ulist_insert_fresh (u : List α) (i : Nat) (x : α) (hu : u.Nodup) (hx : x ∉ u) :
+    inplace u (.insert 0 i x) = some (insertAt u i x) := by
+  simp only [inplace, mk_of_nodup _ (nodup_insertAt_fresh u i x hu hx)]
+/-- every in-place operation: it raises exactly when the list operation raises; otherwise the target holds no duplicate, holds
+exactly the members of the list operation's result, in the order of their first occurrences there -/
+theorem ulist_inplace_spec (u : List α) (op : Op α) :
+    (inplace u op = none ↔ listOp u op = none) ∧
+    ∀ r l, inplace u op = some r → listOp u op = some l →
+      r.Nodup ∧ (∀ y, y ∈ r ↔ y ∈ l) ∧ r.Sublist l ∧ r = mk l := by
+  cases op <;> simp only [inplace, listOp, reduceCtorEq, Option.some.injEq, true_and, iff_self, implies_true, and_true,
+    false_implies] <;> try (intro r l hr hl; subst hr; subst hl; exact ⟨mk_nodup _, fun y => mem_mk y _, mk_sublist _, rfl⟩)
+  case setI h i x =>
+    by_cases hi : i < u.length
+    · simp only [hi, if_true, reduceCtorEq, Option.some.injEq, true_and]
+      intro r l hr hl; subst hr; subst hl; exact ⟨mk_nodup _, fun y => mem_mk y _, mk_sublist _, rfl⟩
+    · simp [hi]
+  case imul h n =>
+    intro r l hr hl; subst hr; subst hl; rw [repeatN_eq]
+    exact ⟨mk_nodup _, fun y => mem_mk y _, mk_sublist _, rfl⟩
+end ulist_inplace
+
+section dictattr_order
+variable {V : Type}
+
+/-- the key ORDER of `d + other` (dictattr proper, `{**d, **other}`): `d`'s keys in `d`'s order, then the keys new in `other`
+in the order of their first occurrence there -/
+theorem add_keys_order (d : D V) (o : List (String × V)) (hd : (keys d).Nodup) :
+    keys (add d o) = keys d ++ (mk (o.map (·.1))).filter (· ∉ keys d) := by
+  simp only [keys, add] at hd ⊢
+  rw [keys_setAll o d.items hd, mk_append, mk_of_nodup _ hd]
+  congr 1
+
+/-- `d[[k1, k2, …]]` at full strength: it raises (`KeyError`, nothing else) iff a listed key is absent; otherwise the result has
+the receiver's class, its keys are the listed keys in the order of their first occurrence in the LIST, each with `d`'s value -/
+theorem getitem_list_full (d : D V) (ks : List String) :
+    (getList d ks = .error .key ↔ ∃ k ∈ ks, lookup k d.items = none) ∧
+    (∀ e, getList d ks = .error e → e = .key) ∧
+    ∀ r, getList d ks = .ok r → r.cls = d.cls ∧ keys r = mk ks ∧
+      ∀ k, lookup k r.items = if k ∈ ks then lookup k d.items else none := by
+  have key : ∀ (ks : List String),
+      (∀ vs, (ks.mapM fun k => match lookup k d.items with
+          | some v => (pure (k, v) : Res (String × V))
+          | none => throw Err.key) = .ok vs → vs.map (·.1) = ks ∧ ∀ k ∈ ks, lookup k d.items ≠ none) ∧
+      (∀ e, (ks.mapM fun k => match lookup k d.items with
+          | some v => (pure (k, v) : Res (String × V))
+          | none => throw Err.key) = .error e → e = .key ∧ ∃ k ∈ ks, lookup k d.items = none) := by
+    intro ks
+    induction ks with
+    | nil => simp [pure, Except.pure]
+    | cons k ks ih =>
+      simp only [List.mapM_cons, bind, Except.bind]
+      cases hk : lookup k d.items with
+      | none => simp [throw, throwThe, MonadExceptOf.throw, hk]
+      | some v =>
+        simp only [pure, Except.pure]
+        cases hm : (ks.mapM fun k => match lookup k d.items with
+          | some v => (Except.ok (k, v) : Res (String × V))
+          | none => throw Err.key) with
+        | error e =>
+          have := ih.2 e (by simpa [pure, Except.pure] using hm)
+          simp only [reduceCtorEq, false_implies, implies_true, Except.error.injEq, true_and]
+          rintro e' rfl
+          exact ⟨this.1, by obtain ⟨k', hk', h⟩ := this.2; exact ⟨k', List.mem_cons_of_mem _ hk', h⟩⟩
+        | ok vs =>
+          have := ih.1 vs (by simpa [pure, Except.pure] using hm)
+          simp only [Except.ok.injEq, reduceCtorEq, false_implies, implies_true, and_true]
+          rintro vs' rfl
+          refine ⟨by simp [this.1], ?_⟩
+          intro k' hk'
+          rcases List.mem_cons.1 hk' with rfl | h
+          · simp [hk]
+          · exact this.2 k' h
+  simp only [getList, bind, Except.bind]
+  cases hm : (ks.mapM fun k => match lookup k d.items with
+      | some v => (pure (k, v) : Res (String × V))
+      | none => throw Err.key) with
+  | error e =>
+    obtain ⟨rfl, hex⟩ := (key ks).2 e hm
+    simp [hex]
+  | ok vs =>
+    obtain ⟨hfst, hall⟩ := (key ks).1 vs hm
+    simp only [reduceCtorEq, false_iff, not_exists, not_and, false_implies, implies_true, true_and, pure, Except.pure,
+      Except.ok.injEq]
+    refine ⟨fun k hk => hall k hk, ?_⟩
+    rintro r rfl
+    refine ⟨rfl, ?_, ?_⟩
+    · simp only [keys]; rw [keys_setAll vs [] (by simp)]; simp [hfst]
+    · intro k
+      refine getitem_list d ks _ ?_ k
+      exact congrArg (fun m : Res (List (String × V)) => m >>= fun vs => (pure { d with items := setAll [] vs } : Res (D V))) hm
+end dictattr_order
+
+section dotted
+open Pyg.Tree
+
+/-- a present key is returned as it is (dots or not) -/
+theorem getKeyD_present (d : D Val) (k : String) (v : Val) (h : lookup k d.items = some v) : getKeyD d k = .ok v := by
+  simp [getKeyD, h, pure, Except.pure]
+
+/-- on a key that `split('.')` leaves whole (no dot) the class-aware read is the plain `d[k]` of `getKey`: `KeyError` when absent -/
+theorem getKeyD_single (d : D Val) (k : String) (hs : k.splitOn "." = [k]) : getKeyD d k = getKey d k := by
+  unfold getKeyD getKey
+  cases h : lookup k d.items with
+  | some v => rfl
+  | none => simp [hs, getDotted, h, throw, throwThe, MonadExceptOf.throw]
+
+/-- WHEN the dotted walk succeeds it returns what C15's path lookup `tree_getitem(t, parts)` returns (an independent
+definition: `getItem` knows nothing of `dict(leaf)`), and conversely -/
+theorem getDotted_ok_iff : ∀ (p : List String) (t v : Val), getDotted t p = .ok v ↔ getItem t p = .ok v
+  | [], t, v => by cases t <;> simp [getDotted, getItem]
+  | k :: rest, t, v => by
+    cases t with
+    | dict kvs =>
+      simp only [getDotted, getItem]
+      cases lookup k kvs with
+      | none => simp [throw, throwThe, MonadExceptOf.throw]
+      | some w => exact getDotted_ok_iff rest w v
+    | cell c =>
+      cases c <;> simp [getDotted, getItem, throw, throwThe, MonadExceptOf.throw]
+      split <;> simp
+    | list xs =>
+      simp only [getItem, throw, throwThe, MonadExceptOf.throw, reduceCtorEq, iff_false]
+      unfold getDotted
+      split <;> simp_all [throw, throwThe, MonadExceptOf.throw]
+    | tuple xs => simp [getDotted, getItem, throw, throwThe, MonadExceptOf.throw]
+
+/-- `d[k]` returns `v` iff `k` is a key holding `v`, or `k` is absent and its dot-separated parts are a path of the nested
+mappings leading to `v` -/
+theorem getKeyD_ok_iff (d : D Val) (k : String) (v : Val) :
+    getKeyD d k = .ok v ↔ lookup k d.items = some v ∨
+      (lookup k d.items = none ∧ getItem (.dict d.items) (k.splitOn ".") = .ok v) := by
+  unfold getKeyD
+  cases h : lookup k d.items with
+  | some w => simp [pure, Except.pure]
+  | none => simp [getDotted_ok_iff]
+
+/-- with all listed keys present the dotted reads are the plain ones (`getitem_tuple`, `getitem_list_full` apply) -/
+theorem getD_conservative (d : D Val) (ks : List String) (h : ∀ k ∈ ks, lookup k d.items ≠ none) :
+    getTupleD d ks = getTuple d ks ∧ getListD d ks = getList d ks := by
+  have e : ∀ k ∈ ks, getKeyD d k = getKey d k := by
+    intro k hk
+    unfold getKeyD getKey
+    cases hl : lookup k d.items with
+    | some v => rfl
+    | none => exact absurd hl (h k hk)
+  constructor
+  · unfold getTupleD getTuple
+    exact mapM_congr_res _ _ ks (fun k hk => by rw [e k hk]; rfl)
+  · unfold getListD getList
+    congr 1
+    apply mapM_congr_res
+    intro k hk
+    rw [e k hk]; unfold getKey
+    cases lookup k d.items <;> rfl
+
+end dotted
+
+section path
+open Pyg.Tree
+
+/-- a one-key path is the plain key deletion -/
+theorem subPath_single (d : D Val) (k : String) : subPath d [k] = .ok (subKey d k) := by
+  simp [subPath, delPath, subKey, Except.map, pure, Except.pure]
+
+/-- a path of two or more keys leaves the top-level keys — and their order — alone; only the value under the first key
+may change -/
+theorem delPath_frame (kvs : List (String × Val)) (k k' : String) (rest : List String) (r : List (String × Val))
+    (h : delPath kvs (k :: k' :: rest) = .ok r) :
+    r.map (·.1) = kvs.map (·.1) ∧ ∀ j, j ≠ k → lookup j r = lookup j kvs := by
+  simp only [delPath] at h
+  split at h
+  · cases h; exact ⟨rfl, fun _ _ => rfl⟩
+  · rename_i sub hl
+    cases hs : delPath sub (k' :: rest) with
+    | error e => simp [hs, bind, Except.bind] at h
+    | ok sub' =>
+      simp only [hs, bind, Except.bind, pure, Except.pure, Except.ok.injEq] at h
+      subst h
+      exact ⟨map_fst_set_mem k _ kvs _ hl, fun j hj => by rw [lookup_set]; simp [hj]⟩
+  · cases h
+  · cases h; exact ⟨rfl, fun _ _ => rfl⟩
+  · cases h; exact ⟨rfl, fun _ _ => rfl⟩
+  · cases h
+
+/-- after `d - path` nothing can be read at `path` any more -/
+theorem delPath_gone : ∀ (p : List String) (kvs r : List (String × Val)), p ≠ [] → delPath kvs p = .ok r →
+    ∀ v, getItem (.dict r) p ≠ .ok v
+  | [], _, _, hp, _ => absurd rfl hp
+  | [k], kvs, r, _, h => by
+    simp only [delPath, pure, Except.pure, Except.ok.injEq] at h
+    subst h
+    intro v
+    have : lookup k (kvs.filter (·.1 ≠ k)) = none := by
+      have := lookup_filter_ne k k kvs
+      simpa using this
+    simp only [getItem]
+    rw [this]
+    simp [throw, throwThe, MonadExceptOf.throw]
+  | k :: k' :: rest, kvs, r, _, h => by
+    intro v
+    simp only [delPath] at h
+    split at h
+    · rename_i hl; cases h; simp [getItem, hl, throw, throwThe, MonadExceptOf.throw]
+    · rename_i sub hl
+      cases hs : delPath sub (k' :: rest) with
+      | error e => simp [hs, bind, Except.bind] at h
+      | ok sub' =>
+        simp only [hs, bind, Except.bind, pure, Except.pure, Except.ok.injEq] at h
+        subst h
+        simp only [getItem, lookup_set, if_true]
+        exact delPath_gone (k' :: rest) sub sub' (by simp) hs v
+    · cases h
+    · rename_i xs hl; cases h; simp [getItem, hl, throw, throwThe, MonadExceptOf.throw]
+    · rename_i xs hl; cases h; simp [getItem, hl, throw, throwThe, MonadExceptOf.throw]
+    · cases h
+
+end path
+
+/-- `d = dictattr(a = {'x': 1, 'y': 2}, b = 2)`: `d - ('a', 'x')`, `d['a.x']`, `d['b.x']` (TypeError), `d['a.q']` (KeyError),
+`d[['a.x']]` -/
+example : subPath ⟨2, [("a", .dict [("x", vi 1), ("y", vi 2)]), ("b", vi 2)]⟩ ["a", "x"] =
+    .ok ⟨2, [("a", .dict [("y", vi 2)]), ("b", vi 2)]⟩ := rfl
+#guard (match getKeyD ⟨2, [("a", .dict [("x", vi 1)]), ("b", vi 2)]⟩ "a.x" with | .ok (.cell (.int 1)) => true | _ => false)
+#guard (match getKeyD ⟨2, [("a", .dict [("x", vi 1)]), ("b", vi 2)]⟩ "b.x" with | .error .type => true | _ => false)
+#guard (match getKeyD ⟨2, [("a", .dict [("x", vi 1)]), ("b", vi 2)]⟩ "a.q" with | .error .key => true | _ => false)
+#guard (match getListD ⟨2, [("a", .dict [("x", vi 1)]), ("b", vi 2)]⟩ ["a.x"] with | .ok ⟨2, [("a.x", .cell (.int 1))]⟩ => true | _ => false)
+example : ulist_setI_fresh [1, 2, 3] 1 9 (by decide) (by decide) (by decide) = (rfl : inplace [1, 2, 3] (.setI 0 1 9) = some [1, 9, 3]) := rfl
+example : listOp [1, 2] (.imul 0 2) = some [1, 2, 1, 2] ∧ inplace [1, 2] (.imul 0 2 : Op Nat) = some [1, 2] := by decide
 
 end Pyg.Props.C16
